@@ -150,6 +150,7 @@ pub mod ev {
     pub const HOLE: u32 = 21; // a = start, b = end (immix hole handed to an allocator)
     pub const LOS_SWEEP: u32 = 22; // a = object, b = nursery?
     pub const HEAP_PAGES: u32 = 23; // a = current heap pages (dynamic trigger)
+    pub const ALLOC_SLOW_ITER: u32 = 24; // a = size, b = is_mutator: one iteration of alloc_slow_inline
 }
 
 /// Fault kinds.
